@@ -1,4 +1,4 @@
-P('C02', shards=8, race=True,
+P('C02', shards=16, race=True,
   passes=[{'race': True}, {'race': True, 'env': {'GOMAXPROCS': 2}, 'tiers': ['thorough']}, {'race': True, 'env': {'GOMAXPROCS': 1}, 'tiers': ['thorough']}, {'race': True, 'env': {'GOMAXPROCS': 4}, 'tiers': ['thorough']}],
   technique='property-based concurrency testing (rapid-generated multi-goroutine logging scripts against a monitoring destination that owns the Write window) + metamorphic oracle "logged concurrently == logged alone", under the race detector with a GOMAXPROCS sweep',
   text='Generated scenarios (handler kind x threshold x colour x addSource; 2..8 goroutines logging through the root logger, pre-derived shared loggers and loggers derived during the run; line sizes up to 70 KiB) write into a destination that yields/spins inside Write '
